@@ -12,7 +12,7 @@ from common import hexs
 
 ASSUMPTIONS = [
     "std::regex matches (x)?(z|r?\\d+)(?:-(z|r?\\d+))? as ECMAScript defines it (the model implements that one expression by hand)",
-    "AcroForm field re-parenting and resource pruning are not modelled (DESIGN C12: oracle-only / outside)",
+    "AcroForm field re-parenting is not modelled (DESIGN C12: oracle-only); the resource-pruning model takes ResourceFinder's result as given (the tokeniser is C16's), forms are not shared or cyclic; the label model takes the number tree as its sorted entry list (C18)",
     "output page lists are read back through qpdf --json-output (qpdf's own reader); strictness of the written file is C02's subject",
     "page-tree model (Struct/PageAttr.v): tree objects have distinct ids, correct /Type and /Parent, indirect dictionary kids; every indirect reference is below the document's next object id; Pages::cache's other repairs are C13's model; no signed overflow in rotatePage (|old + angle| < 2^31)",
 ]
@@ -421,7 +421,11 @@ def run(chk):
                        "pattr: random page trees built in-process (depth 1-5, chains, empty nodes, each inheritable key present/absent per level, direct/indirect/shared/"
                        "dangling/ill-typed values, explicit /Rotate 0 under an inherited rotation, /Rotate beyond 32 bits or not a multiple of 90, wrong /Count, unknown keys) "
                        "x histories of 1-6 operations (pushInheritedAttributesToPage, getAllPages, findPage, removePage, insert, rotatePage) + fixed cases per case split; "
-                       "non-trivial = the object graph changed, distinct by (tree, history)") % BODY_ALPHA
+                       "non-trivial = the object graph changed, distinct by (tree, history). "
+                       "rprune: random pages with nested form XObjects (with/without /Type, own/indirect/inherited/no resources, bad tokens, names shared between "
+                       "resource types, unknown names) through removeUnreferencedResources; non-trivial = something was pruned. "
+                       "plabels: random label trees (missing index 0, gaps, every style, prefixes, /St absent/0/negative/non-integer) x call sequences shaped like "
+                       "handlePageSpecs (consecutive runs for the redundancy elision), doSplitPages, and free-form; non-trivial = at least two entries") % BODY_ALPHA
     part_numrange(chk, drv, runner)
     part_cli(chk, runner)
     import c12_forms
@@ -430,6 +434,10 @@ def run(chk):
     c12_res.part_res(chk)
     import c12_attr
     c12_attr.part_attr(chk, drv, runner)
+    import c12_prune
+    c12_prune.part_prune(chk, drv, runner)
+    import c12_labels
+    c12_labels.part_labels(chk, drv, runner)
 
 
 def replay(chk, rep):
